@@ -33,6 +33,10 @@ pub struct Eval {
     pub res: RunResult,
     pub compared: u64,
     pub discarded: bool,
+    /// peak of live heap bytes above the level at the start of the run, and
+    /// allocator calls (set by the driver's `evaluate_watched`)
+    pub peak_bytes: u64,
+    pub alloc_calls: u64,
 }
 
 pub fn evaluate(scen: &Scenario, trace: bool) -> Eval {
@@ -74,6 +78,8 @@ pub fn evaluate(scen: &Scenario, trace: bool) -> Eval {
                 res,
                 compared: 0,
                 discarded: false,
+                peak_bytes: 0,
+                alloc_calls: 0,
             };
         }
     }
@@ -84,6 +90,8 @@ pub fn evaluate(scen: &Scenario, trace: bool) -> Eval {
             res,
             compared: v.compared,
             discarded: v.discarded,
+            peak_bytes: 0,
+            alloc_calls: 0,
         }
     } else {
         let v = c01::check(scen, &res);
@@ -92,6 +100,8 @@ pub fn evaluate(scen: &Scenario, trace: bool) -> Eval {
             res,
             compared: 0,
             discarded: false,
+            peak_bytes: 0,
+            alloc_calls: 0,
         }
     }
 }
